@@ -164,12 +164,21 @@ theorem restart_cycles (n : Nat) : ∀ (s : St), WF s →
     obtain ⟨C'', hC'', j1, j2, j4⟩ := k5 C' hC' g3
     exact ⟨C'', hC'', by rw [j1, g1], by rw [j2, g2], by rw [j4, g4]⟩
 
-/-! ## shutdown requested at any point (micro-steps) -/
+/-! ## shutdown requested at any point (micro-steps)
 
-/-- the full claim: whatever the interleaving of the shutdown with publishers and consumer pumps,
-once everything has run to its end every acknowledged message is on a disk queue -/
+`{}` = the tree without the two repairs (scans hold the exit lock, answers and publishers do not);
+`fixedTree` = with fixes/F17 (topic-exit barrier) and fixes/F18 (REQ/TOUCH hold the exit lock).
+Which of the two a given tree is, is decided by the ties `topic_exit_flag_shape` and
+`answers_exit_lock_shape`; every witness schedule below is replayed on the real code with the hooks. -/
+
+/-- the full claim: whatever the interleaving of the shutdown with publishers, answers and consumer
+pumps, once everything has run to its end every acknowledged, un-FINished message is on a disk queue -/
 def C05_full : Prop :=
   ∀ (sched : List RaceStep) (s : RaceSt), raceRun {} sched = some s → raceDone s = true → allAckedOnDisk s = true
+
+/-- … and the same claim for the tree with both repairs -/
+def C05_full_fixed : Prop :=
+  ∀ (sched : List RaceStep) (s : RaceSt), raceRun fixedTree sched = some s → raceDone s = true → allAckedOnDisk s = true
 
 /-- F9 (a): the consumer pump has taken m off the channel queue and not yet registered it in
 flight (`proto.pump.afterRecv`) when `Channel.flush` runs: m reaches neither disk nor a consumer -/
@@ -181,51 +190,144 @@ and closed, then the publisher's send lands in the memory channel and is acknowl
 def witnessPublish : List RaceStep :=
   [.pubCheck 1, .exitFlag, .exitChan, .exitTopicFlush, .pubSend 1]
 
-def lost (sched : List RaceStep) : Bool :=
-  match raceRun {} sched with
+/-- F18 (a): REQ 0 has taken m out of the in-flight map (`chan.req.afterPop`), the channel is flushed
+and closed, then REQ sees `Exiting()` and returns an error: m is in no container -/
+def witnessReq : List RaceStep :=
+  [.pubCheck 1, .pubSend 1, .fanout, .pumpRecv, .pumpRegister 1, .ansTake 1, .exitFlag, .exitChan, .exitTopicFlush, .reqPut 1]
+
+/-- F18 (b): deferred REQ: m lands in the deferred map of a closed channel -/
+def witnessReqDeferred : List RaceStep :=
+  [.pubCheck 1, .pubSend 1, .fanout, .pumpRecv, .pumpRegister 1, .ansTake 1, .exitFlag, .exitChan, .exitTopicFlush, .reqDefer 1]
+
+/-- F18 (c): TOUCH (`chan.touch.afterPop`): m lands back in the in-flight map of a closed channel -/
+def witnessTouch : List RaceStep :=
+  [.pubCheck 1, .pubSend 1, .fanout, .pumpRecv, .pumpRegister 1, .ansTake 1, .exitFlag, .exitChan, .exitTopicFlush, .touchPut 1]
+
+def lostFrom (s0 : RaceSt) (sched : List RaceStep) : Bool :=
+  match raceRun s0 sched with
   | some s => raceDone s && !allAckedOnDisk s
   | none => false
 
+def lost (sched : List RaceStep) : Bool := lostFrom {} sched
+
 theorem witnessPump_loses : lost witnessPump = true := by decide
 theorem witnessPublish_loses : lost witnessPublish = true := by decide
+theorem witnessReq_loses : lost witnessReq = true ∧ lost witnessReqDeferred = true ∧ lost witnessTouch = true := by decide
 
-theorem C05_full_false : ¬ C05_full := by
+theorem lostFrom_refutes (s0 : RaceSt) (w : List RaceStep) (hl : lostFrom s0 w = true) :
+    ¬ ∀ (sched : List RaceStep) (s : RaceSt), raceRun s0 sched = some s → raceDone s = true → allAckedOnDisk s = true := by
   intro h
-  have hl : lost witnessPump = true := witnessPump_loses
-  unfold lost at hl
-  cases hr : raceRun {} witnessPump with
+  unfold lostFrom at hl
+  cases hr : raceRun s0 w with
   | none => rw [hr] at hl; cases hl
   | some s =>
     rw [hr] at hl
     simp only [Bool.and_eq_true, Bool.not_eq_true'] at hl
-    have := h witnessPump s hr hl.1
+    have := h w s hr hl.1
     rw [this] at hl
     cases hl.2
 
+theorem C05_full_false : ¬ C05_full := lostFrom_refutes {} witnessPump witnessPump_loses
+
+/-- the pump window stays open with both repairs: it is the only one (see `fixed_tree_loses_only_pump_window`) -/
+theorem C05_full_fixed_false : ¬ C05_full_fixed :=
+  lostFrom_refutes fixedTree witnessPump (by decide)
+
+/-- with the barrier the publish witness is not a schedule any more (`Topic.exit` cannot set the flag
+while the publisher holds the read lock), and neither are the three answer witnesses with the exit lock
+held by REQ / TOUCH; each repair alone closes its own window -/
+theorem repaired_witnesses_impossible :
+    raceRun fixedTree witnessPublish = none ∧ raceRun { topicBarrier := true } witnessPublish = none ∧
+    raceRun fixedTree witnessReq = none ∧ raceRun fixedTree witnessReqDeferred = none ∧
+    raceRun fixedTree witnessTouch = none ∧ raceRun { ansLock := true } witnessReq = none ∧
+    raceRun { ansLock := true } witnessReqDeferred = none ∧ raceRun { ansLock := true } witnessTouch = none := by decide
+
+/-- the same interleavings with the waiting made explicit (the shutdown step comes after the parked
+goroutine has finished) lose nothing on the repaired tree -/
+theorem repaired_orders_safe :
+    lostFrom fixedTree [.pubCheck 1, .pubSend 1, .exitFlag, .exitChan, .exitTopicFlush] = false ∧
+    lostFrom fixedTree [.pubCheck 1, .pubSend 1, .fanout, .pumpRecv, .pumpRegister 1, .ansTake 1, .exitFlag, .reqPut 1,
+      .exitChan, .exitTopicFlush] = false ∧
+    (raceRun fixedTree [.pubCheck 1, .pubSend 1, .fanout, .pumpRecv, .pumpRegister 1, .ansTake 1, .exitFlag, .reqPut 1,
+      .exitChan, .exitTopicFlush]).map (fun s => (raceDone s, s.chanDisk)) = some (true, [1]) := by decide
+
+/-- **F17 + F18**: on the repaired tree, whatever the schedule, once the shutdown has completed and every
+goroutine has run to its end, every acknowledged message is on a disk queue, was FINished, or was
+registered in flight by a consumer pump *after* its channel had been flushed — the one window left -/
+theorem fixed_tree_loses_only_pump_window (sched : List RaceStep) (s : RaceSt)
+    (h : raceRun fixedTree sched = some s) (hd : raceDone s = true) :
+    ∀ m ∈ s.acked, m ∈ s.topicDisk ∨ m ∈ s.chanDisk ∨ m ∈ s.finished ∨ m ∈ s.lateReg := by
+  have inv := fixedInv_run sched fixedTree s fixedInv_init h
+  simp only [raceDone, Bool.and_eq_true, List.isEmpty_iff] at hd
+  obtain ⟨⟨⟨⟨htc, _⟩, hph⟩, _⟩, _⟩ := hd
+  have hcc := inv.tc htc
+  intro m hm
+  have := inv.safe m hm
+  unfold Safe at this
+  rw [hph, htc, hcc] at this
+  simpa using this
+
+/-- `C05_fixed_partial`: hypothesis forced by `C05_full_fixed_false` — no consumer pump registered a message
+after its channel was flushed.  Then the repaired tree loses nothing, for every schedule. -/
+theorem C05_fixed_partial (sched : List RaceStep) (s : RaceSt)
+    (h : raceRun fixedTree sched = some s) (hd : raceDone s = true) (hl : s.lateReg = []) :
+    allAckedOnDisk s = true := by
+  unfold allAckedOnDisk
+  rw [List.all_eq_true]
+  intro m hm
+  have := fixed_tree_loses_only_pump_window sched s h hd m hm
+  rw [hl] at this
+  simp only [Bool.or_eq_true, List.contains_eq_mem, decide_eq_true_eq]
+  rcases this with h1 | h1 | h1 | h1
+  · exact Or.inl (Or.inl h1)
+  · exact Or.inl (Or.inr h1)
+  · exact Or.inr h1
+  · cases h1
+
+/-- **F17 alone** (whatever the channel-side parameters, from any initial parameter choice with the
+barrier): every acknowledged message is on the topic's disk queue or was handed to the channel by the
+topic pump — nothing is left in the memory queue of a closed topic -/
+theorem barrier_topic_side_safe (s0 : RaceSt) (hb : s0.topicBarrier = true)
+    (he : s0.topicExiting = false) (hc : s0.chanClosed = false) (ht : s0.topicClosed = false) (ha : s0.acked = [])
+    (sched : List RaceStep) (s : RaceSt) (h : raceRun s0 sched = some s) (hd : s.topicClosed = true) :
+    ∀ m ∈ s.acked, m ∈ s.topicDisk ∨ m ∈ s.fanned := by
+  have i0 : BarrierInv s0 :=
+    { bar := hb
+      safe := by intro m hm; rw [ha] at hm; cases hm
+      pend := by intro h; rw [he] at h; cases h
+      ce := by intro h; rw [hc] at h; cases h
+      tc := by intro h; rw [ht] at h; cases h }
+  have inv := barrierInv_run sched s0 s i0 h
+  intro m hm
+  rcases inv.safe m hm with h1 | h1 | h1
+  · exact Or.inl h1
+  · exact Or.inr h1
+  · rw [hd] at h1; cases h1.1
+
 /-- the state after the three stages of a shutdown that nothing interleaves with -/
 def exited (s : RaceSt) : RaceSt :=
-  { s with topicExiting := true, chanDisk := s.chanDisk ++ s.chanMem ++ s.inflight, chanMem := [], chanClosed := true,
+  { s with topicExiting := true, chanDisk := s.chanDisk ++ s.chanMem ++ s.inflight ++ s.deferred, chanMem := [], chanClosed := true,
            topicDisk := s.topicDisk ++ s.topicMem, topicMem := [], topicClosed := true }
 
-/-- `C05_partial`: a shutdown that starts when no publisher is between the exit check and its queue
-write and no consumer pump holds an unregistered message (and runs its three stages without such a
-continuation appearing) leaves every acknowledged message on disk; nothing that happens afterwards
-changes that -/
+/-- `C05_partial` (any tree whose scans hold the exit lock, in particular the unrepaired one): a shutdown
+that starts when no publisher is between the exit check and its queue write, no consumer pump holds an
+unregistered message and no REQ / TOUCH / scan is between its two halves (and runs its three stages
+without such a continuation appearing) leaves every acknowledged, un-FINished message on disk -/
 theorem C05_partial (s : RaceSt) (hinv : RaceInv s) (hp : s.putPending = []) (hh : s.pumpHolds = [])
-    (hsc : s.scanHolds = [])
+    (hsc : s.scanHolds = []) (ha : s.ansHolds = [])
     (he : s.topicExiting = false) (hc : s.chanClosed = false) (ht : s.topicClosed = false) :
     raceRun s [.exitFlag, .exitChan, .exitTopicFlush] = some (exited s) ∧
       allAckedOnDisk (exited s) = true ∧ raceDone (exited s) = true := by
-  refine ⟨by simp [raceRun, raceStep, he, hc, ht, hsc, exited], ?_, ?_⟩
+  refine ⟨by simp [raceRun, raceStep, he, hc, ht, hsc, ha, hp, exited], ?_, ?_⟩
   · unfold allAckedOnDisk exited
     rw [List.all_eq_true]
     intro m hm
-    have := hinv.2.1 m hm
+    have := hinv.2.1 hc m hm
     unfold Located at this
-    simp only [hh, hsc, List.not_mem_nil, or_false] at this
+    simp only [hh, hsc, ha, List.not_mem_nil, or_false, false_or] at this
     simp only [Bool.or_eq_true, List.contains_eq_mem, List.mem_append, decide_eq_true_eq]
-    rcases this with h1 | h1 | h1 | h1 | h1 <;> simp [h1]
-  · simp [raceDone, exited, hp, hh, hsc]
+    rcases this with h1 | h1 | h1 | h1 | h1 | h1 | h1 <;> simp [h1]
+  · simp [raceDone, exited, hp, hh, hsc, ha]
 
 /-- shutdown racing the timeout scan is **safe** on the tree as it is: the scan holds `exitMutex.RLock`
 from before it takes a message out of the in-flight map until it has put it back (tie
@@ -233,7 +335,7 @@ from before it takes a message out of the in-flight map until it has put it back
 a timed-out message is never dropped by the "exiting" path -/
 theorem scan_race_safe (sched : List RaceStep) (s : RaceSt) (h : raceRun {} sched = some s)
     (hc : s.chanClosed = true) : s.scanHolds = [] :=
-  (raceInv_run sched {} s raceInv_init h).2.2 hc
+  (raceInv_run sched {} s (raceInv_init {} rfl rfl rfl) h).2.2 hc
 
 /-- … and the lock is what makes it safe: without it (`scanLock := false`, e.g. taking exitMutex only
 around the final requeue) the channel can close while the scan holds the message and it is lost -/
@@ -241,9 +343,7 @@ def witnessScanUnlocked : List RaceStep :=
   [.pubCheck 1, .pubSend 1, .fanout, .pumpRecv, .pumpRegister 1, .scanTake 1, .exitFlag, .exitChan, .exitTopicFlush, .scanPut 1]
 
 theorem scan_lock_needed :
-    (match raceRun { scanLock := false } witnessScanUnlocked with
-     | some s => raceDone s && !allAckedOnDisk s
-     | none => false) = true ∧
+    lostFrom { scanLock := false } witnessScanUnlocked = true ∧
     raceRun {} witnessScanUnlocked = none := by decide
 
 /-- a `PersistMetadata` that runs after the topics have been closed (a Notify still pending when
@@ -262,7 +362,7 @@ theorem persisted_ignores_exiting (s : St) : persisted (markExiting s) = persist
 
 /-- the invariant used by `C05_partial` holds in every reachable state of the race model -/
 theorem race_inv_reachable (sched : List RaceStep) (s : RaceSt) (h : raceRun {} sched = some s) : RaceInv s :=
-  raceInv_run sched {} s raceInv_init h
+  raceInv_run sched {} s (raceInv_init {} rfl rfl rfl) h
 
 /-! ### non-vacuity -/
 
@@ -292,5 +392,18 @@ example : persisted (cycles 3 demo) = persisted demo ∧
 in the channel, one still in the topic) -/
 example : ∃ s, raceRun {} [.pubCheck 1, .pubSend 1, .fanout, .pubCheck 2, .pubSend 2] = some s ∧
     s.putPending = [] ∧ s.pumpHolds = [] ∧ s.topicExiting = false ∧ s.acked = [2, 1] := ⟨_, rfl, rfl, rfl, rfl, rfl⟩
+/-- `fixed_tree_loses_only_pump_window` / `C05_fixed_partial` are not vacuous: a complete shutdown of the repaired
+tree racing a publisher, a deferred REQ, a TOUCH, a FIN, a timeout scan and a disk-queue receive; everything ends on disk -/
+def fixedDemo : List RaceStep :=
+  [.pubCheck 1, .pubSend 1, .pubCheck 2, .pubSend 2, .pubCheck 3, .pubSend 3, .pubCheck 4, .pubSend 4, .pubCheck 5,
+   .fanout, .fanout, .fanout, .pumpRecv, .pumpRegister 1, .pumpRecv, .pumpRegister 2, .pumpRecv, .pumpRegister 3,
+   .ansTake 1, .pubSend 5, .exitFlag, .pubCheck 6, .reqDefer 1, .ansTake 2, .touchPut 2, .fin 3, .scanTake 2, .scanPut 2,
+   .exitChan, .exitTopicFlush]
+example : (raceRun fixedTree fixedDemo).map (fun s => (raceDone s, s.lateReg, s.acked, s.topicDisk, s.chanDisk, s.finished, allAckedOnDisk s)) =
+    some (true, [], [5, 4, 3, 2, 1], [4, 5], [2, 1], [3], true) := by rfl
+/-- … and the window that stays: same tree, the pump registers after the flush -/
+example : (raceRun fixedTree witnessPump).map (fun s => (raceDone s, s.lateReg, allAckedOnDisk s)) = some (true, [1], false) := by decide
+example : (raceRun { topicBarrier := true } [.pubCheck 1, .pubSend 1, .pubCheck 2, .pubSend 2, .fanout, .exitFlag, .exitChan, .exitTopicFlush]).map
+    (fun s => (s.topicClosed, s.acked, s.topicDisk, s.fanned)) = some (true, [2, 1], [2], [1]) := by decide
 
 end Nsq.Props.C05
